@@ -30,7 +30,7 @@ def match_known(pid, fail, known):
 
 
 def write_replay(pid, tier, variant, fail, idx):
-    d = os.path.join(ROOT, "replays")
+    d = os.environ.get("VERIF_REPLAY_DIR") or os.path.join(ROOT, "replays")
     os.makedirs(d, exist_ok=True)
     p = os.path.join(d, "%s-%d.json" % (pid, idx))
     r = dict(fail)
@@ -52,7 +52,7 @@ def finish(mod, pid, tier, seed, results, wall, extra_cov=None, level=None):
             else:
                 viol.append(f)
     # old replay files of this property are removed first
-    rd = os.path.join(ROOT, "replays")
+    rd = os.environ.get("VERIF_REPLAY_DIR") or os.path.join(ROOT, "replays")
     if os.path.isdir(rd):
         for fn in os.listdir(rd):
             if fn.startswith(pid + "-"):
@@ -102,8 +102,9 @@ def finish(mod, pid, tier, seed, results, wall, extra_cov=None, level=None):
         cov.update(extra_cov)
     ev = {"property_id": pid, "tier": tier, "seed": seed, "level": level, "coverage": cov,
           "assumptions": getattr(mod, "ASSUMPTIONS", []), "wall_s": round(wall, 2), "violations": len(viol)}
-    os.makedirs(os.path.join(ROOT, "evidence"), exist_ok=True)
-    json.dump(ev, open(os.path.join(ROOT, "evidence", pid + ".json"), "w"), indent=1)
+    evd = os.environ.get("VERIF_EVIDENCE_DIR") or os.path.join(ROOT, "evidence")      # (redirected only when trying seeded changes)
+    os.makedirs(evd, exist_ok=True)
+    json.dump(ev, open(os.path.join(evd, pid + ".json"), "w"), indent=1)
     print("%s %s: %d executions, %d distinct outcomes, %d blocks, exhaustive=%s, %d violation(s), %d known, %.1fs" % (
         pid, tier, n, distinct, sum(r["blocks"] for r in results), exhaustive, len(viol), len(kn), wall))
     for r in results:
